@@ -99,6 +99,17 @@ Qed.
 Lemma denote_sort l c : denote (sort_subsets l) c = denote l c.
 Proof. unfold sort_subsets. rewrite denote_sort_from. cbn. apply orb_false_r. Qed.
 
+(* elements written without a marker: the set inside FROM does not end with one *)
+Lemma simple_elem_unmarked e : simple_alpha_elem e = true -> elem_marked e = false.
+Proof. destruct e as [[z|s|] [|] | [[z|[|a [|a2 s]]|]|] [[z2|[|b [|b2 s2]]|]|] [|] | | | | ]; cbn; intro H; try discriminate H; reflexivity. Qed.
+
+Lemma simple_alpha_unmarked inner : simple_alpha inner = true -> ends_with_marker inner = false.
+Proof.
+  induction inner as [e | b o r IH]; cbn [simple_alpha ends_with_marker]; intro H.
+  - now apply simple_elem_unmarked.
+  - apply andb_true_iff in H as [_ Hr]. now apply IH.
+Qed.
+
 (* the whole path for one FROM constraint *)
 Lemma annotation_union_exact fuel t inner ann :
   known_multiplier t = true -> union_only inner = true -> simple_alpha inner = true ->
@@ -106,7 +117,7 @@ Lemma annotation_union_exact fuel t inner ann :
   forall c, denote (match ann with Some l => l | None => [] end) c = semb_alpha_rn inner c.
 Proof.
   intros Hk Hu Hs Ha c. unfold alphabet_annotation in Ha. cbn [collect] in Ha.
-  unfold try_new in Ha. rewrite Hk in Ha. cbn [negb cset from_elem] in Ha.
+  unfold try_new in Ha. rewrite Hk in Ha. cbn [negb cset cext from_elem] in Ha. rewrite (simple_alpha_unmarked inner Hs) in Ha.
   destruct (from_alpha_inner (character_set t) inner) as [l| | |] eqn:E; cbn [bind] in Ha; try discriminate Ha.
   inversion Ha; subst. rewrite app_nil_r.
   rewrite <- (from_alpha_union_exact (character_set t) inner l Hu Hs E c).
@@ -235,3 +246,12 @@ Proof. unfold alphabet_annotation. cbn [collect]. rewrite try_new_extensible. re
 Theorem extensible_ignored fuel t s cs :
   collect fuel t ({| cset := s; cext := true |} :: cs) = collect fuel t cs.
 Proof. cbn [collect]. rewrite try_new_extensible. cbn [bind]. destruct (collect fuel t cs); reflexivity. Qed.
+
+(* ... and so does a FROM whose inner set ends with the marker, `FROM ("a".."c" | "x", ...)`: no closed alphabet is emitted *)
+Theorem from_ending_with_marker_no_annotation fuel t inner :
+  ends_with_marker inner = true ->
+  alphabet_annotation fuel t [{| cset := El (Alpha inner); cext := false |}] = Ok None.
+Proof.
+  intro H. unfold alphabet_annotation. cbn [collect]. unfold try_new.
+  destruct (negb (known_multiplier t)); [reflexivity|]. cbn [cext cset from_elem]. rewrite H. reflexivity.
+Qed.
